@@ -194,34 +194,42 @@ scenarios! {
     c13_protocol_new7 [8] => proto_new7;
     #[kani::unwind(12)]
     #[kani::stub(<mqtt_proto_sync::Error as std::convert::From<std::io::Error>>::from, crate::model::from_io_eof_stub)]
+    #[kani::stub(<std::io::Error as std::string::ToString>::to_string, crate::model::io_to_string_stub)]
     #[kani::stub(simdutf8::basic::from_utf8, crate::model::from_utf8_model_stub)]
     c13_protocol_wire4 [5] => proto_wire4;
     #[kani::unwind(12)]
     #[kani::stub(<mqtt_proto_sync::Error as std::convert::From<std::io::Error>>::from, crate::model::from_io_eof_stub)]
+    #[kani::stub(<std::io::Error as std::string::ToString>::to_string, crate::model::io_to_string_stub)]
     #[kani::stub(simdutf8::basic::from_utf8, crate::model::from_utf8_model_stub)]
     c13_protocol_wire5 [6] => proto_wire5;
     #[kani::unwind(12)]
     #[kani::stub(<mqtt_proto_sync::Error as std::convert::From<std::io::Error>>::from, crate::model::from_io_eof_stub)]
+    #[kani::stub(<std::io::Error as std::string::ToString>::to_string, crate::model::io_to_string_stub)]
     #[kani::stub(simdutf8::basic::from_utf8, crate::model::from_utf8_model_stub)]
     c13_protocol_wire6 [7] => proto_wire6;
     #[kani::unwind(12)]
     #[kani::stub(<mqtt_proto_sync::Error as std::convert::From<std::io::Error>>::from, crate::model::from_io_eof_stub)]
+    #[kani::stub(<std::io::Error as std::string::ToString>::to_string, crate::model::io_to_string_stub)]
     #[kani::stub(simdutf8::basic::from_utf8, crate::model::from_utf8_model_stub)]
     c13_protocol_wire7 [8] => proto_wire7;
     #[kani::unwind(12)]
     #[kani::stub(<mqtt_proto_sync::Error as std::convert::From<std::io::Error>>::from, crate::model::from_io_eof_stub)]
+    #[kani::stub(<std::io::Error as std::string::ToString>::to_string, crate::model::io_to_string_stub)]
     #[kani::stub(simdutf8::basic::from_utf8, crate::model::from_utf8_model_stub)]
     c13_protocol_wire8 [9] => proto_wire8;
     #[kani::unwind(9)]
     #[kani::stub(<mqtt_proto_sync::Error as std::convert::From<std::io::Error>>::from, crate::model::from_io_eof_stub)]
+    #[kani::stub(<std::io::Error as std::string::ToString>::to_string, crate::model::io_to_string_stub)]
     #[kani::stub(simdutf8::basic::from_utf8, crate::model::from_utf8_class_stub)]
     c13_v311_into_v5 [3] => v311_into_v5;
     #[kani::unwind(9)]
     #[kani::stub(<mqtt_proto_sync::Error as std::convert::From<std::io::Error>>::from, crate::model::from_io_eof_stub)]
+    #[kani::stub(<std::io::Error as std::string::ToString>::to_string, crate::model::io_to_string_stub)]
     #[kani::stub(simdutf8::basic::from_utf8, crate::model::from_utf8_class_stub)]
     c13_v310_into_v5 [3] => v310_into_v5;
     #[kani::unwind(9)]
     #[kani::stub(<mqtt_proto_sync::Error as std::convert::From<std::io::Error>>::from, crate::model::from_io_eof_stub)]
+    #[kani::stub(<std::io::Error as std::string::ToString>::to_string, crate::model::io_to_string_stub)]
     #[kani::stub(simdutf8::basic::from_utf8, crate::model::from_utf8_class_stub)]
     c13_v5_into_v3 [7] => v5_into_v3;
 }
